@@ -1,4 +1,5 @@
 """C01 - OSC 1.0 wire format: structural necessary conditions (see DESIGN.md section 2, C01)."""
+import re
 from .. import astlib as A
 from ..facts import AnalysisBroken
 from ..rules import byteorder as BO
@@ -235,6 +236,10 @@ def run(ctx):
                 r9, m9 = OR.run_builder(u, "rtosc_amessage", adr9, ty9, va9)
                 s9, _ = OR.run_builder(u, "vsosc_null", adr9, ty9, va9)
             except _FD8.Unknown as e:
+                if re.search(r"argument slot \d+ of \d+ read", str(e)):
+                    # the caller passes one array element per value-carrying tag: reading another one is reading behind the array
+                    bad9.append({"address": adr9, "types": ty9, "problem": "the builder reads an element of the argument array that the type string does not account for: %s" % e})
+                    continue
                 raise AnalysisBroken("R01.9: builder not evaluable on (%r, %r): %s" % (adr9, ty9, e))
             w9 = m9.written(len(ref9))
             if r9 != len(ref9) or s9 != len(ref9) or w9 != ref9 or m9.oob:
